@@ -1,12 +1,13 @@
-import DdsProofs.Memo
+import DdsProofs.History
 /-!
-# Non-vacuity of `memo_correct` / `history_correct`
+# Non-vacuity of `memo_correct` / `history_value`
 
-A concrete universe (two versions of a two-function pipeline: the callee's body is edited between them), a proof
-that it satisfies every hypothesis of `Universe`, and a history on which the theorems apply: version 1 is
-evaluated, then version 2 against the same store. The model's own computation of that history (kernel-evaluated)
-shows the analysis succeeding, the second evaluation re-running the edited function and the values being the
-plain ones.
+A concrete universe: two versions of a pipeline (the body of the callee `f1` is edited between them) and a reader that
+loads one of the paths the pipeline keeps. A proof that it satisfies every hypothesis of `Universe`, and a history on
+which the theorems apply: version 1 of the pipeline is evaluated, the reader is evaluated (it loads `/q`, committed by the
+evaluation before), version 2 of the pipeline is evaluated against the same store, and the reader again. The model's own
+computation of that history (kernel-evaluated) shows the analysis succeeding, the edited function re-run, the reader
+re-run because the path it loads serves another result, and the values being the plain ones.
 -/
 namespace Dds.Example
 open Dds List
@@ -27,76 +28,90 @@ def root : Fn :=
               .keep "/q" "f1" [.other] [] [some { rs := [0], ps := [] }] [] 2],
     fails := none, usesExt := false }
 
-def W1 : World := { funs := [root, leafA], extVersion := 0 }
-def W2 : World := { funs := [root, leafB], extVersion := 0 }
+/-- the reader: `r0 = dds.load('/q')` -/
+def reader : Fn :=
+  { name := "c0", lines := ["def c0():", "    r0 = dds.load('/q')", "    return term('c0#0', r0)", ""], tag := "c0#0",
+    params := [], storePath := none, vars := [], exts := [], items := [.load "/q" 1], fails := none, usesExt := false }
+
+def W1 : World := { funs := [root, leafA, reader], extVersion := 0 }
+def W2 : World := { funs := [root, leafB, reader], extVersion := 0 }
 def rq : Request := { kind := .eval, fn := "f0" }
+def rqR : Request := { kind := .keep "/c", fn := "c0" }
 
 def U : Universe where
-  fns f := f = root ∨ f = leafA ∨ f = leafB
+  fns f := f = root ∨ f = leafA ∨ f = leafB ∨ f = reader
   vals v := v = .int 1
   avals v := v = .int 1
   faithful := by
     intro f g hf hg h
-    rcases hf with rfl | rfl | rfl <;> rcases hg with rfl | rfl | rfl <;>
+    rcases hf with rfl | rfl | rfl | rfl <;> rcases hg with rfl | rfl | rfl | rfl <;>
       first | rfl | (exact absurd h (by decide))
   varsInj := by intro v w hv hw _; rw [hv, hw]
   argsInj := by intro v w hv hw _; rw [hv, hw]
   varsIn := by
     intro f hf nv h
-    rcases hf with rfl | rfl | rfl <;> simp [root, leafA, leafB] at h
+    rcases hf with rfl | rfl | rfl | rfl <;> simp [root, leafA, leafB, reader] at h
   varNames := by
     intro f hf
-    rcases hf with rfl | rfl | rfl <;> simp [root, leafA, leafB]
-  noLoads := by
+    rcases hf with rfl | rfl | rfl | rfl <;> simp [root, leafA, leafB, reader]
+  noEval := by
     intro f hf it h
-    rcases hf with rfl | rfl | rfl
+    rcases hf with rfl | rfl | rfl | rfl
     · simp only [root, mem_cons, not_mem_nil, or_false] at h
-      rcases h with rfl | rfl <;> simp [Item.noLoad]
+      rcases h with rfl | rfl <;> simp [Item.isEval]
     · simp [leafA] at h
     · simp [leafB] at h
+    · simp only [reader, mem_cons, not_mem_nil, or_false] at h
+      subst h; simp [Item.isEval]
   constsIn := by
     intro f hf it h v hv
-    rcases hf with rfl | rfl | rfl
+    rcases hf with rfl | rfl | rfl | rfl
     · simp only [root, mem_cons, not_mem_nil, or_false] at h
       rcases h with rfl | rfl
       · simpa [Item.hasConst] using hv
       · simp [Item.hasConst] at hv
     · simp [leafA] at h
     · simp [leafB] at h
+    · simp only [reader, mem_cons, not_mem_nil, or_false] at h
+      subst h; simp [Item.hasConst] at hv
   defaultsIn := by
     intro f hf p hp d hd
-    rcases hf with rfl | rfl | rfl
+    rcases hf with rfl | rfl | rfl | rfl
     · simp [root] at hp
     · simp only [leafA, mem_cons, not_mem_nil, or_false] at hp; subst hp; simp at hd
     · simp only [leafB, mem_cons, not_mem_nil, or_false] at hp; subst hp; simp at hd
+    · simp [reader] at hp
   plainParams := by
     intro f hf
-    rcases hf with rfl | rfl | rfl <;> decide
+    rcases hf with rfl | rfl | rfl | rfl <;> decide
   paramNames := by
     intro f hf
-    rcases hf with rfl | rfl | rfl <;> simp [root, leafA, leafB]
+    rcases hf with rfl | rfl | rfl | rfl <;> simp [root, leafA, leafB, reader]
   noCtxParam := by
     intro f hf p hp
-    rcases hf with rfl | rfl | rfl
+    rcases hf with rfl | rfl | rfl | rfl
     · simp [root] at hp
     · simp only [leafA, mem_cons, not_mem_nil, or_false] at hp; subst hp; decide
     · simp only [leafB, mem_cons, not_mem_nil, or_false] at hp; subst hp; decide
+    · simp [reader] at hp
   sorted := by
     intro f hf
-    rcases hf with rfl | rfl | rfl <;> simp [root, leafA, leafB, Item.line]
+    rcases hf with rfl | rfl | rfl | rfl <;> simp [root, leafA, leafB, reader, Item.line]
   lineBound := by
     intro f hf it h
-    rcases hf with rfl | rfl | rfl
+    rcases hf with rfl | rfl | rfl | rfl
     · simp only [root, mem_cons, not_mem_nil, or_false] at h
       rcases h with rfl | rfl <;> simp [Item.line, root]
     · simp [leafA] at h
     · simp [leafB] at h
+    · simp only [reader, mem_cons, not_mem_nil, or_false] at h
+      subst h; simp [Item.line, reader]
   prefixFaithful := by
     intro f g n hf hg h
-    rcases hf with rfl | rfl | rfl <;> rcases hg with rfl | rfl | rfl
+    rcases hf with rfl | rfl | rfl | rfl <;> rcases hg with rfl | rfl | rfl | rfl
     all_goals first
       | exact ⟨rfl, rfl⟩
-      | (exfalso; cases n <;> simp [root, leafA, leafB, take] at h)
+      | (exfalso; cases n <;> simp [root, leafA, leafB, reader, take] at h)
       | (cases n with
          | zero => exact ⟨rfl, by simp [leafA, leafB]⟩
          | succ k => exfalso; cases k <;> simp [leafA, leafB, take] at h)
@@ -104,27 +119,66 @@ def U : Universe where
 theorem world1 : U.world W1 := by
   intro f hf
   simp only [W1, mem_cons, not_mem_nil, or_false] at hf
-  rcases hf with rfl | rfl
+  rcases hf with rfl | rfl | rfl
   · exact Or.inl rfl
   · exact Or.inr (Or.inl rfl)
+  · exact Or.inr (Or.inr (Or.inr rfl))
 
 theorem world2 : U.world W2 := by
   intro f hf
   simp only [W2, mem_cons, not_mem_nil, or_false] at hf
-  rcases hf with rfl | rfl
+  rcases hf with rfl | rfl | rfl
   · exact Or.inl rfl
-  · exact Or.inr (Or.inr rfl)
+  · exact Or.inr (Or.inr (Or.inl rfl))
+  · exact Or.inr (Or.inr (Or.inr rfl))
+
+/-- `keep` is applied to `f1` only, which is not a data function -/
+theorem keepsPlain1 : W1.keepsPlain := by
+  intro f hf it hit path g args kwargs rtA rtK l e h hfind
+  simp only [W1, mem_cons, not_mem_nil, or_false] at hf
+  rcases hf with rfl | rfl | rfl
+  · simp only [root, mem_cons, not_mem_nil, or_false] at hit
+    rcases hit with rfl | rfl
+    all_goals
+      simp only [Item.keep.injEq] at e
+      obtain ⟨_, rfl, _⟩ := e
+      simp [World.find, W1, root, leafA] at hfind
+      subst hfind; rfl
+  · simp [leafA] at hit
+  · simp only [reader, mem_cons, not_mem_nil, or_false] at hit
+    subst hit; cases e
+
+theorem keepsPlain2 : W2.keepsPlain := by
+  intro f hf it hit path g args kwargs rtA rtK l e h hfind
+  simp only [W2, mem_cons, not_mem_nil, or_false] at hf
+  rcases hf with rfl | rfl | rfl
+  · simp only [root, mem_cons, not_mem_nil, or_false] at hit
+    rcases hit with rfl | rfl
+    all_goals
+      simp only [Item.keep.injEq] at e
+      obtain ⟨_, rfl, _⟩ := e
+      simp [World.find, W2, root, leafB] at hfind
+      subst hfind; rfl
+  · simp [leafB] at hit
+  · simp only [reader, mem_cons, not_mem_nil, or_false] at hit
+    subst hit; cases e
+
+theorem ctx1 : EvalCtx U 0 W1 := ⟨world1, rfl, keepsPlain1⟩
+theorem ctx2 : EvalCtx U 0 W2 := ⟨world2, rfl, keepsPlain2⟩
 
 theorem request_ok : U.request rq := ⟨fun a h => by simp [rq] at h, fun a h => by simp [rq] at h⟩
+theorem requestR_ok : U.request rqR := ⟨fun a h => by simp [rqR] at h, fun a h => by simp [rqR] at h⟩
 
-/-- the history: version 1 evaluated on an empty store -/
-def hist : List HStep := [⟨W1, rq⟩]
+/-- the history: version 1 of the pipeline, the reader, version 2 of the pipeline -/
+def hist : List HStep := [⟨W1, rq⟩, ⟨W1, rqR⟩, ⟨W2, rq⟩]
 
-theorem hist_ok : ∀ s ∈ hist, s.ok U 0 := by
-  intro s hs
-  simp only [hist, mem_cons, not_mem_nil, or_false] at hs
-  subst hs
-  exact ⟨world1, rfl, request_ok⟩
+def h0 : HState := { store := {}, kept := [] }
+
+/-- every evaluation of the history is of a version of the universe, and loads only paths committed before it -/
+theorem hist_ok : histOK U 100 0 h0 hist := by
+  refine ⟨⟨ctx1, request_ok⟩, externalLoads_of_check (by decide +kernel), ?_⟩
+  refine ⟨⟨ctx1, requestR_ok⟩, externalLoads_of_check (by decide +kernel), ?_⟩
+  exact ⟨⟨ctx2, request_ok⟩, externalLoads_of_check (by decide +kernel), trivial⟩
 
 def valueIs (o : Outcome) (s : String) : Bool :=
   match o.value with
@@ -134,24 +188,30 @@ def valueIs (o : Outcome) (s : String) : Bool :=
 def phaseOk (r : Except DdsErr (Fn × Env × FIS × List (String × Sg))) : Bool :=
   match r with | .ok _ => true | .error _ => false
 
-/-- the analysis accepts both evaluations of the history (the hypotheses of `history_correct` are met) … -/
+/-- the analysis accepts the evaluations (the hypotheses of `history_value` are met) … -/
 example : phaseOk (analysisPhase 100 W1 {} rq) = true := by decide +kernel
-example : phaseOk (analysisPhase 100 W2 (runHistory 100 {} hist) rq) = true := by decide +kernel
+example : phaseOk (analysisPhase 100 W2 (runHist 100 h0 hist).store rqR) = true := by decide +kernel
+example : extLoadsB (analysisPhase 100 W2 (runHist 100 h0 hist).store rqR) = true := by decide +kernel
 
-/-- … the first evaluation computes everything, the second one — of the edited version, against the store the first
-one left — re-runs the edited function (both kept calls of it) and returns the new values, not the stored ones -/
+/-- … the first evaluation computes everything; the reader sees the value kept at `/q` … -/
 example : valueIs (evalStep 100 W1 {} rq) "f0#0(f1#0(1),f1#0(rt(f1#0(1))))" = true := by decide +kernel
-example : valueIs (evalStep 100 W2 (runHistory 100 {} hist) rq) "f0#0(f1#1(1),f1#1(rt(f1#1(1))))" = true := by decide +kernel
-example : (evalStep 100 W2 (runHistory 100 {} hist) rq).log = ["f0", "f1", "f1"] := by decide +kernel
-/-- re-evaluating version 1 after version 2: the blobs of version 1 are still there and are served -/
-example : (evalStep 100 W1 (runHistory 100 {} (hist ++ [⟨W2, rq⟩])) rq).log = ["f0"] := by decide +kernel
-example : valueIs (evalStep 100 W1 (runHistory 100 {} (hist ++ [⟨W2, rq⟩])) rq) "f0#0(f1#0(1),f1#0(rt(f1#0(1))))" = true := by
-  decide +kernel
+example : valueIs (evalStep 100 W1 (runHist 100 h0 [⟨W1, rq⟩]).store rqR) "c0#0(f1#0(rt(f1#0(1))))" = true := by decide +kernel
+/-- … the evaluation of the edited version re-runs the edited function (both kept calls of it) … -/
+example : (evalStep 100 W2 (runHist 100 h0 [⟨W1, rq⟩, ⟨W1, rqR⟩]).store rq).log = ["f0", "f1", "f1"] := by decide +kernel
+/-- … and the reader, whose code did not change, is re-run because `/q` serves another result: it returns the new value,
+not the stored one -/
+example : (evalStep 100 W2 (runHist 100 h0 hist).store rqR).log = ["c0"] := by decide +kernel
+example : valueIs (evalStep 100 W2 (runHist 100 h0 hist).store rqR) "c0#0(f1#1(rt(f1#1(1))))" = true := by decide +kernel
+/-- evaluated once more, the reader is served from the store -/
+example : (evalStep 100 W2 (runHist 100 h0 (hist ++ [⟨W2, rqR⟩])).store rqR).log = [] := by decide +kernel
 
-/-- `history_correct` instantiated: whatever the analysis computed, the value is the plain one -/
+/-- `history_value` instantiated: whatever the analysis computed, the value of the reader after the history is the plain
+one, from the values plain execution has kept -/
 example (fn : Fn) (env : Env) (fis : FIS) (paths : List (String × Sg))
-    (ha : analysisPhase 100 W2 (runHistory 100 {} hist) rq = .ok (fn, env, fis, paths)) (p : PSt) :
-    (evalStep 100 W2 (runHistory 100 {} hist) rq).value = ((plainFn W2 W2.fuel p fn env).1).map some :=
-  history_correct U 100 0 false hist hist_ok W2 rq world2 rfl request_ok fn env fis paths ha (by decide) p
+    (ha : analysisPhase 100 W2 (runHist 100 h0 hist).store rqR = .ok (fn, env, fis, paths))
+    (hext : ∀ p ∈ fis.allLoads, External paths p) :
+    (evalStep 100 W2 (runHist 100 h0 hist).store rqR).value =
+      ((plainFn W2 W2.fuel { kept := (runHist 100 h0 hist).kept } fn env).1).map some :=
+  history_value U 100 0 false hist hist_ok W2 rqR ctx2 requestR_ok ha hext (by decide)
 
 end Dds.Example
